@@ -108,11 +108,14 @@ def main():
     ncat = len(progs)
     for _ in range(n):
         progs.append(gen_body(R.rng, 0, [14]))
+    # programs whose context blocks all use ONE jaxtyped("context") object (re-entered when the blocks nest)
+    shared = [("context" in json.dumps(p)) and (i % 3 == 0) for i, p in enumerate(progs)]
     nw = 8
     chunks = [progs[i::nw] for i in range(nw)]
+    schunks = [shared[i::nw] for i in range(nw)]
     from concurrent.futures import ThreadPoolExecutor
     with ThreadPoolExecutor(nw) as ex:
-        outs = list(ex.map(lambda kc: vf.impl("impl_prog.py", {"programs": kc[1]}, bg=(kc[0] % 3 == 1)), list(enumerate(chunks))))   # every third worker: with parked threads
+        outs = list(ex.map(lambda kc: vf.impl("impl_prog.py", {"programs": kc[1], "shared": schunks[kc[0]]}, bg=(kc[0] % 3 == 1)), list(enumerate(chunks))))   # every third worker: with parked threads
     impl = [None] * len(progs)
     for w, o in enumerate(outs):
         for j, r in enumerate(o):
@@ -125,10 +128,10 @@ def main():
         R.count("nodes:%d" % min(count_nodes(p), 15))
         for o in r["oracle"]:
             R.violation("property", "the caller's bindings changed across a %s (%s): before (depth, bindings) %s, after %s" % (o["node"], {k: v for k, v in o.items() if k not in ("before", "after", "node")}, o["before"][:2], o["after"][:2]),
-                        {"program": p, "oracle": o}, key={"kind": "caller-changed", "node": o["node"], "exit": o.get("exit")})
+                        {"program": p, "one_context_object": shared[i], "oracle": o}, key={"kind": "caller-changed", "node": o["node"], "exit": o.get("exit")})
         if r["end"][0] != 0 or r["end"][2].strip() != "":
             R.violation("property", "after the program, at top level: context depth %d, print_bindings() shows %r (checks outside every context must be stateless)" % (r["end"][0], r["end"][2]),
-                        {"program": p, "end": r["end"]}, key={"kind": "toplevel-not-clean"})
+                        {"program": p, "one_context_object": shared[i], "end": r["end"]}, key={"kind": "toplevel-not-clean"})
         if r["trace"] != m:
             R.violation("correspondence", "trace differs from the model: implementation `%s`, model `%s`" % (r["trace"], m), {"program": p, "impl": r["trace"], "model": m}, key={"kind": "trace"},
                         no_input=not r["oracle"])
